@@ -143,3 +143,59 @@ func VH_C01_roundtrip() {
 	r9, _, _ := vhDo(s, "TYPE", "k")
 	vassert("C01.K3.last_delete_removes_collection", r9.String() == "none")
 }
+
+// VH_C01_json_paths: JSET / JGET / JDEL on nested paths and with RAW / STR: the document reads back exactly as the
+// path operations prescribe, siblings are untouched, deleting the last member leaves an empty document and the
+// object (still retrievable), and a failed path operation changes nothing.
+//verif:cfg b_steps=9_fixed_path_operations_then_one_of_8_further_operations b_id=one_symbolic_byte ignorego=1
+func VH_C01_json_paths() {
+	s := vhServer()
+	id := vnondetStringN(1)
+	step := func(want string, args ...string) {
+		_, _, err := vhDo(s, args...)
+		vassert("C01.J.step_ok", err == nil)
+		r, _, _ := vhDo(s, "GET", "docs", id)
+		vassert("C01.J.document_after_step", r.String() == want)
+	}
+	step(`{"a":{"b":5}}`, "JSET", "docs", id, "a.b", "5")
+	step(`{"a":{"b":5,"c":"x"}}`, "JSET", "docs", id, "a.c", "x")
+	step(`{"a":{"b":5,"c":"x"},"n":"7"}`, "JSET", "docs", id, "n", "7", "STR")
+	step(`{"a":{"b":5,"c":"x"},"n":"7","r":{"k":[1,2]}}`, "JSET", "docs", id, "r", `{"k":[1,2]}`, "RAW")
+	step(`{"a":{"b":5,"c":"x"},"n":"7","r":{"k":[1,2]},"t":true}`, "JSET", "docs", id, "t", "true")
+	g, _, _ := vhDo(s, "JGET", "docs", id, "r.k.1")
+	vassert("C01.J.jget_nested", g.String() == "2")
+	g2, _, _ := vhDo(s, "JGET", "docs", id, "a", "RAW")
+	vassert("C01.J.jget_raw", g2.String() == `{"b":5,"c":"x"}`)
+	g3, _, _ := vhDo(s, "JGET", "docs", id, "n")
+	vassert("C01.J.jget_string_member", g3.String() == "7")
+	step(`{"a":{"c":"x"},"n":"7","r":{"k":[1,2]},"t":true}`, "JDEL", "docs", id, "a.b")
+	before := vhSnapshot(s)
+	r, _, err := vhDo(s, "JDEL", "docs", id, "a.zz")
+	vassert("C01.J.jdel_missing_path_is_a_negative_answer", err == nil && r.Integer() == 0 && vhSnapshot(s) == before)
+	switch vchoose(8) {
+	case 0:
+		step(`{"a":{"c":"x"},"n":"7","r":{"k":[1,2]}}`, "JDEL", "docs", id, "t")
+	case 1:
+		step(`{"a":{"c":"x"},"n":"7","r":{"k":[1]},"t":true}`, "JDEL", "docs", id, "r.k.1")
+	case 2:
+		step(`{"a":{"c":"x"},"n":8,"r":{"k":[1,2]},"t":true}`, "JSET", "docs", id, "n", "8")
+	case 3:
+		step(`{"a":"flat","n":"7","r":{"k":[1,2]},"t":true}`, "JSET", "docs", id, "a", "flat")
+	case 4:
+		step(`{"a":{"c":"x"},"n":"7","r":{"k":[1,2]},"t":true,"z":null}`, "JSET", "docs", id, "z", "null")
+	case 5:
+		step(`{"a":{"c":"x","d":{"e":1.5}},"n":"7","r":{"k":[1,2]},"t":true}`, "JSET", "docs", id, "a.d.e", "1.5")
+	case 6:
+		_, _, e := vhDo(s, "JSET", "docs", id, "", "v")
+		vassert("C01.J.empty_path_is_an_error_and_changes_nothing", e != nil && vhSnapshot(s) == before)
+	default:
+		// fields and the collection are untouched by document edits; a second id is independent
+		vhDo(s, "FSET", "docs", id, "f", "3")
+		step(`{"a":{"c":"x"},"n":"7","r":{"k":[1,2]},"t":true,"u":1}`, "JSET", "docs", id, "u", "1")
+		f, _, _ := vhDo(s, "FGET", "docs", id, "f")
+		vassert("C01.J.fields_survive_document_edits", f.String() == "3")
+	}
+	ex, _, _ := vhDo(s, "EXISTS", "docs", id)
+	vassert("C01.J.object_still_there", ex.Integer() == 1)
+	vobs("jsonpaths", id)
+}
